@@ -74,6 +74,11 @@ fn main() {
                 Cfg { ents: three(), clients: clients(2), max_size: vec![100, 220], track: true, ..Default::default() },
                 Profile { steps: 60, comps: vec!["A", "B"], pad: 40, marks: false, ..Default::default() },
             ),
+            "timeout" => (
+                // acknowledgement timeout shorter than the round trip; several messages per tick
+                Cfg { ents: three(), clients: clients(2), max_size: vec![100, 220], timeout_ms: 100, ..Default::default() },
+                Profile { steps: 70, comps: vec!["A", "B"], pad: 40, dt: 60, marks: false, ..Default::default() },
+            ),
             "rates" => (
                 Cfg { ents: vec!["e1".into(), "e2".into()], ..Default::default() },
                 Profile { steps: 50, comps: vec!["A", "P", "O"], ..Default::default() },
